@@ -224,7 +224,8 @@ def run_pre(proc, item):
     elif k == "lines":
         try:
             fa = proc.af.FileAnonymizer(**fa_kwargs(item["opts"]))
-            keep.append(fa)
+            if not item.get("drop"):
+                keep.append(fa)          # otherwise the anonymizer is released as soon as it is done
             fa.anonymize_io(io.StringIO(item["text"]), io.StringIO())
         except Exception:
             pass
@@ -234,7 +235,7 @@ def run_pre(proc, item):
 
 def run_proc(fs, pspec, share=None):
     """One simulated process on the surviving disk.  Returns its history."""
-    fs.new_process(knobs=pspec.get("knobs"), faults=pspec.get("faults"))
+    fs.new_process(knobs=pspec.get("knobs"), faults=(pspec.get("faults") if not pspec.get("pre") else []))
     proc = share if share is not None else SimProcess(pspec.get("knobs"))
     hist = {"steps": [], "outcome": "ok"}
     cap_out, cap_err = io.StringIO(), io.StringIO()
@@ -247,6 +248,10 @@ def run_proc(fs, pspec, share=None):
                     run_step(fs, proc, item["step"], {"steps": []})
                 else:
                     run_pre(proc, item)
+            hist["pre_nsys"] = fs.nsys
+            if pspec.get("pre"):
+                # faults are armed only once the pre-history is over (it is not the run under observation)
+                fs.faults = [dict(f, fired=0) for f in (pspec.get("faults") or [])]
             for step in pspec["steps"]:
                 run_step(fs, proc, step, hist)
     except SimCrash:
